@@ -93,3 +93,81 @@ def k3_diff(seed, n_random=300):
             "stats": {"differential_cases": len(lines)}, "validated": 0,
             "samples": [{"kernel_case": lines[7], "python": py[7], "lean": lean[7]}],
             "fingerprints": ["k3:%d" % i for i in range(len(set(lines)))]}
+
+
+def k4_diff(seed, n_random=400):
+    """throttle.py `_submit_loop_iter` admission loop vs the regenerated Lean kernel K4.admit."""
+    import collections
+    import contextlib
+    from more_executors._impl import throttle as tmod
+    rng = random.Random(seed * 31 + 4)
+    cases = []
+    for qn in range(0, 4):
+        for running in range(0, 4):
+            for th in [None, 0, 1, 2, 3]:
+                cases.append((list(range(10, 10 + qn)), running, th))
+    for _ in range(n_random):
+        cases.append(([rng.randrange(100) for _ in range(rng.randint(0, 9))], rng.randint(0, 6), rng.choice([None, 0, 1, 2, 3, 5, 8])))
+    lines, py = [], []
+
+    class _AI(object):
+        def __init__(self, v):
+            self.value = v
+
+        def incr(self):
+            self.value += 1
+
+    class _G(object):
+        n = 0
+
+        def labels(self, **k):
+            return self
+
+        def dec(self):
+            _G.n += 1
+
+        def inc(self, *a):
+            pass
+
+    saved_metrics = tmod.metrics
+    saved_is_shutdown = tmod.is_shutdown
+
+    class _M(object):
+        THROTTLE_QUEUE = _G()
+    try:
+        tmod.metrics = _M()
+        tmod.is_shutdown = lambda: False
+        for (q, running, th) in cases:
+            ex = tmod.ThrottleExecutor.__new__(tmod.ThrottleExecutor)
+            ex._log = _NullLog()
+            ex._name = "k"
+            ex._to_submit = collections.deque(tmod.ThrottleJob(None, j, (), {}) for j in q)
+            ex._lock = contextlib.nullcontext()
+            ex._running_count = _AI(running)
+            ex._event = "EV"
+            ex._eval_throttle = lambda th=th: th
+            handed = []
+            ex._do_submit = lambda job, handed=handed: handed.append(job.fn)
+
+            class _SD(object):
+                is_shutdown = False
+            ex._shutdown = _SD()
+            _G.n = 0
+            try:
+                tmod._submit_loop_iter(ex)
+                r = "[%s] [%s] %d %d" % (" ".join(map(str, handed)), " ".join(str(j.fn) for j in ex._to_submit), ex._running_count.value, _G.n)
+            except Exception as e:
+                r = "EXC:%s" % type(e).__name__
+            lines.append("k4.admission %s %d %s" % ("None" if th is None else th, running, " ".join(map(str, q))))
+            py.append(r)
+    finally:
+        tmod.metrics = saved_metrics
+        tmod.is_shutdown = saved_is_shutdown
+    out = leanval.validate_blocks([["S oracle"] + lines + ["."]])[0]
+    assert out.startswith("ORACLE "), out[:200]
+    lean = out[len("ORACLE "):].split(";")
+    bad = [(ln, a, b) for ln, a, b in zip(lines, py, lean) if a != b]
+    return {"hits": [], "broken": ([{"what": "translator differential K4", "detail": "%s: python=%s lean=%s" % bad[0]}] if bad else []),
+            "stats": {"differential_cases": len(lines)}, "validated": 0,
+            "samples": [{"kernel_case": lines[-1], "python": py[-1], "lean": lean[-1]}],
+            "fingerprints": ["k4:%d" % i for i in range(len(set(lines)))]}
